@@ -199,6 +199,10 @@ class Gen(object):
             c = hi - r.randint(0, 2) + fr
         elif kind == 'near_lo':
             c = lo + r.randint(0, 2) - fr
+        elif kind == 'tiny' and r.random() < 0.2:
+            # the smallest subnormal doubles themselves (their product with 2**n_frac underflows to zero
+            # when n_frac is negative)
+            return Fraction(r.choice([1, -1]) * r.choice([1, 1, 2, 3]), 1 << 1074)
         elif kind == 'tiny':
             # far below the format's resolution (down to denormals), optionally on top of a code
             base = Fraction(r.choice([0, 0, r.randint(lo, hi)]))
@@ -992,6 +996,8 @@ class Gen(object):
         if op['route'] == 'fn':
             if r.random() < 0.5:
                 op['sizing'] = r.choice(SIZINGS)
+            if r.random() < 0.35:
+                op['method'] = r.choice(['raw', 'repr', 'repr'])
             q = r.random()
             if q < 0.2:
                 ko, _ = self.pick(self.is_real)
